@@ -25,6 +25,11 @@ REQUIRED = ['Ems.C09.renumber_spec', 'Ems.C09.renumber_in_range', 'Ems.C09.renum
             'Ems.C09.updated_row', 'Ems.C09.updated_entry', 'Ems.C09.newIndex_injective',
             'Ems.C09.tables_agree_after_clip', 'Ems.C09.reference_followed', 'Ems.C09.referencedBy_spec',
             'Ems.C09.no_reference_lost', 'Ems.C09.clip_polygons_end_to_end']
+EXTRA_MODULES = globals().get('EXTRA_MODULES', []) + ['EmsModel.Props.C09More']   # B6: tables_stay_consistent (Lemmas/ClipTablesMore.lean states the C10 relations)
+REQUIRED += ['Ems.C09.tables_stay_consistent', 'Ems.C09.edges_distinct_after_clip', 'Ems.C09.face_edge_after_clip',
+             'Ems.C09.edge_face_after_clip', 'Ems.C09.face_face_after_clip', 'Ems.C09.face_face_symmetric_after_clip',
+             'Ems.C09.dropped_neighbours_become_fill', 'Ems.C09.no_orphan_edge_after_clip',
+             'Ems.C09.clipped_row_is_kept_row', 'Ems.C09.derived_tables_satisfy_consistent']
 RULE = ('datasets of every convention with explicitly stored geometry (CF 1-D stored bounds, CF 2-D / SHOC simple stored '
         '4-corner bounds, SHOC standard node grids, UGRID meshes 0/1-based x NaN / _FillValue attribute / no fill x normal / '
         'transposed x every subset of edge_node / face_edge / edge_face / face_face), coordinates as xarray coordinates or plain '
